@@ -10,54 +10,56 @@ From Incr.Proofs Require Import Pres FrameScope Memo.
    same node and does nothing else: the state (event log, invocation counter, graph) is unchanged, so
    the underlying function is not invoked — from whatever scope the call is made *)
 Theorem C20_live_key_returns_same_node :
-  forall f m k s mm n x,
+  forall f p m k s mm n x,
     memos s !! m = Some mm -> assoc_find k (m_table mm) = Some n -> nodes s !! n = Some x -> n_live x = true ->
-    memo_call (S f) m k s = (Ok n, s).
+    memo_call (S f) p m k s = (Ok n, s).
 Proof. exact memo_call_hit. Qed.
 
 (* two calls in a row, the first of any kind: the second returns the first's node, untouched state *)
 Theorem C20_second_call_shares_the_node :
-  forall f f' m k s n s' x,
-    memo_call (S f) m k s = (Ok n, s') -> nodes s' !! n = Some x -> n_live x = true ->
-    memo_call (S f') m k s' = (Ok n, s').
+  forall f f' p p' m k s n s' x,
+    memo_call (S f) p m k s = (Ok n, s') -> nodes s' !! n = Some x -> n_live x = true ->
+    memo_call (S f') p' m k s' = (Ok n, s').
 Proof. exact memo_call_twice. Qed.
 
 (* a new key, or a key whose node has been freed: the underlying function runs again (its event is
    logged, its template is instantiated with the key), in the scope weak_memoize_fn was called in;
-   afterwards the caller's scope is restored and the key is bound to the new result *)
+   afterwards the caller's scope is restored, the key is bound to the new result and the function's own
+   temporaries are released ([p]: what the enclosing frames still hold) *)
 Theorem C20_dead_or_new_key_invokes_function :
-  forall f m k s mm n s',
-    memos s !! m = Some mm -> memo_miss s mm k -> memo_call (S f) m k s = (Ok n, s') ->
+  forall f p m k s mm n s',
+    memos s !! m = Some mm -> memo_miss s mm k -> memo_call (S f) p m k s = (Ok n, s') ->
     exists s1 s2, cur_scope s1 = m_scope mm /\ events s1 = EvMemoFn m k :: events s /\ nodes s1 = nodes s /\ memos s1 = memos s
-      /\ instantiate f (VInt k) (m_body mm) (m_ret mm) s1 = (Ok (Some n), s2)
-      /\ s' = s2 <| cur_scope := cur_scope s |>
-                 <| memos := alter (fun mm => mm <| m_table := assoc_set k n (m_table mm) |>) m (memos s2) |>.
+      /\ instantiate f p (VInt k) (m_body mm) (m_ret mm) s1 = (Ok (Some n), s2)
+      /\ s' = (collect (ONode n :: (ONode <$> p))
+                 (s2 <| cur_scope := cur_scope s |>
+                     <| memos := alter (fun mm => mm <| m_table := assoc_set k n (m_table mm) |>) m (memos s2) |>)).2.
 Proof. exact memo_call_miss. Qed.
 
 Theorem C20_call_restores_callers_scope :
-  forall f m k s n s', memo_call (S f) m k s = (Ok n, s') -> cur_scope s' = cur_scope s.
+  forall f p m k s n s', memo_call (S f) p m k s = (Ok n, s') -> cur_scope s' = cur_scope s.
 Proof. exact memo_call_restores_scope. Qed.
 
 (* every node created by a memoised call — directly, or by memoised functions it calls, whatever the
    outcome of the call and whatever scope it is made from — belongs to a scope in which some
    weak_memoize_fn was called, never to the caller's scope as such *)
 Theorem C20_created_nodes_belong_to_creation_scopes :
-  forall fuel m k s i x,
-    length (nodes s) <= i -> nodes (memo_call fuel m k s).2 !! i = Some x -> n_created_in x ∈ memo_scopes s.
+  forall fuel p m k s i x,
+    length (nodes s) <= i -> nodes (memo_call fuel p m k s).2 !! i = Some x -> n_created_in x ∈ memo_scopes s.
 Proof. exact memo_call_new_nodes_scope. Qed.
 
 (* in particular, when the functions were memoised at top level, a node obtained inside a bind
    closure is a top-level node: the bind's re-run or disposal (which invalidates exactly the nodes
    created in its scope, C03) does not touch it *)
 Theorem C20_top_level_functions_create_top_level_nodes :
-  forall fuel m k s, Forall (fun mm => m_scope mm = STop) (memos s) ->
-    forall i x, length (nodes s) <= i -> nodes (memo_call fuel m k s).2 !! i = Some x -> n_created_in x = STop.
+  forall fuel p m k s, Forall (fun mm => m_scope mm = STop) (memos s) ->
+    forall i x, length (nodes s) <= i -> nodes (memo_call fuel p m k s).2 !! i = Some x -> n_created_in x = STop.
 Proof. exact memo_call_top_scope. Qed.
 
 (* the scope discipline for templates in general (bind closures included): scopes of memoised
    functions never change, and every new node or memoised function belongs to a scope in play *)
 Theorem C20_scope_frame :
-  forall fuel, (forall v b r, pres Qsc (instantiate fuel v b r)) /\ (forall m k, pres Qsc (memo_call fuel m k)).
+  forall fuel, (forall p v b r, pres Qsc (instantiate fuel p v b r)) /\ (forall p m k, pres Qsc (memo_call fuel p m k)).
 Proof. exact sc_instantiate_memo. Qed.
 
 (* non-vacuity: a history with calls from top level and from a bind closure.  The function runs for
